@@ -25,6 +25,7 @@ type PinCase struct {
 	AndWord   bool      `json:"and_word,omitempty"` // use `and` instead of `&`
 	Fields    string    `json:"fields,omitempty"`
 	Delete    bool      `json:"delete,omitempty"` // the clause belongs to a DELETE statement
+	Limit     string    `json:"limit,omitempty"`  // " limit s, n" appended to the statement, if any
 }
 
 func (a *PinAtom) Render() string {
@@ -75,13 +76,13 @@ func (p *PinCase) Where() string {
 
 func (p *PinCase) Text() string {
 	if p.Delete {
-		return "delete where " + p.Where()
+		return "delete where " + p.Where() + p.Limit
 	}
 	f := p.Fields
 	if f == "" {
 		f = "*"
 	}
-	return "select " + f + " where " + p.Where()
+	return "select " + f + " where " + p.Where() + p.Limit
 }
 
 // region semantics of one atom, closed at the literal on purpose.
@@ -141,7 +142,7 @@ func init() {
 	register(&Prop{
 		ID:    "C18",
 		Level: "exploration",
-		Rule:  "case = (canonical key-pinning WHERE shape with its literals from the alphabet {a,b,c} up to length 3, optional opaque value conjunct on either side, optional second pinning conjunct, store, batch size, drain mode). The invariant is evaluated over the simulated storage's read trace: every Get key lies in the union of the pinning conjuncts' closed regions; per end detection (delimited by caller polls and by write calls) at most two cursor keys lie outside it, and none inside it is read after one outside; no cursor key lies below the region start; =/IN shapes (alone, with an opaque conjunct, or with a prefix/range conjunct containing all their keys) issue no cursor Next at all and Get-read every surviving key; clauses unsatisfiable on their face issue no Get and no Next. quick samples; thorough enumerates all literal choices per shape. distinct_nontrivial counts distinct (shape tuple, literal tuple, opaque position, mode, batch) with at least one storage read or an unsatisfiable verdict. quick also draws: byte-level alphabets (8 %: literals and keys relabelled to bytes such as 0x00, 0x7f, 0x80, 0xfe, 0xff), key lists of 65..300 literals with batch sizes 64..1000, literals and keys of 70..300 bytes, chains of 20..300 opaque conjuncts around the pinning ones.",
+		Rule:  "case = (canonical key-pinning WHERE shape with its literals from the alphabet {a,b,c} up to length 3, optional opaque value conjunct on either side, optional second pinning conjunct, store, batch size, drain mode). The invariant is evaluated over the simulated storage's read trace: every Get key lies in the union of the pinning conjuncts' closed regions; per end detection (delimited by caller polls and by write calls) at most two cursor keys lie outside it, and none inside it is read after one outside; no cursor key lies below the region start; =/IN shapes (alone, with an opaque conjunct, or with a prefix/range conjunct containing all their keys) issue no cursor Next at all and Get-read every surviving key; clauses unsatisfiable on their face issue no Get and no Next. quick samples; thorough enumerates all literal choices per shape. distinct_nontrivial counts distinct (shape tuple, literal tuple, opaque position, mode, batch) with at least one storage read or an unsatisfiable verdict. quick also draws: byte-level alphabets (8 %: literals and keys relabelled to bytes such as 0x00, 0x7f, 0x80, 0xfe, 0xff), key lists of 65..300 literals with batch sizes 64..1000, literals and keys of 70..300 bytes, chains of 20..300 opaque conjuncts around the pinning ones, a LIMIT above the pinned scan (12 %: offsets beyond the number of matching rows, counts below it).",
 		Assumptions: []string{
 			"closed bounds: reading the literal key itself for > and < is not a violation",
 			"'at most one key beyond the end' is read per end detection: up to two keys beyond the region are tolerated per segment (caller poll, or stretch between two write calls), because a plan that drains its child in a loop detects the end when it gets the last rows and again when it gets nothing; the whole-statement count is recorded as a number, not judged",
@@ -378,6 +379,14 @@ func genC18Case(r *Rng, i int, tier string, bytesProb float64) *Scenario {
 	}
 	pc.Fields = pick(r, []string{"*", "key", "key, value", "key, int(value) as n"})
 	pc.Delete = r.Chance(0.15)
+	if tier != "thorough" && r.Chance(0.12) {
+		// a LIMIT above the pinned scan: offsets beyond the number of matching rows, counts below it
+		if r.Bool() {
+			pc.Limit = fmt.Sprintf(" limit %d", r.Range(1, 5))
+		} else {
+			pc.Limit = fmt.Sprintf(" limit %d, %d", pick(r, []int{0, 1, 2, 7, 40}), r.Range(1, 5))
+		}
+	}
 	mode := genMode(r)
 	sc := &Scenario{Cfg: Config{Batch: pickBatch(r), Cache: r.Bool(), Alias: r.Chance(0.3), Lazy: r.Chance(0.3)}, Init: c18Store(r), K: &pc}
 	for i := range pc.Atoms {
@@ -548,8 +557,9 @@ func pinVerdict(pc *PinCase, evs []Event, complete bool) (kind, detail string) {
 		}
 		break
 	}
-	if pc.Delete {
-		// a DELETE by literal key set may remove the keys without reading them
+	if pc.Delete || pc.Limit != "" {
+		// a DELETE by literal key set may remove the keys without reading them;
+		// under a LIMIT the statement may stop before it has read all of them
 		surviving = nil
 	}
 	gets := map[string]bool{}
